@@ -27,6 +27,7 @@ DOC_F = "query Q($s: Boolean!) { a { id @skip(if: $s) name } }"
 DOC_G = "{ ...RF color } fragment RF on Query { num a { ...AF } } fragment AF on A { id }"
 DOC_H = "{ ...RF } fragment RF on Query { color hello(n: 2) }"
 DOC_M = "query($s: Boolean = false) { x: num @skip(if: false) ...MF color } fragment MF on Query { x: num @skip(if: $s) }"
+DOC_N = "query($p: Int, $x: Int!) { hello(p: {a: $p, c: [$x, 1]}) lst(xs: [$x], ps: [{a: $p}]) }"
 POOL = [
     # label, text, op, variables, faults, variant, ctx-kind
     ("skip-true", DOC_A, None, {"s": True}, {}, 1, "scn"),
@@ -37,6 +38,8 @@ POOL = [
     ("nested-skip-false", DOC_F, None, {"s": False}, {}, 1, "scn"),
     ("root-fragment", DOC_G, None, None, {}, 1, "scn"),
     ("root-fragment-same-name-other-body", DOC_H, None, None, {}, 2, "scn"),
+    ("nested-variable-1", DOC_N, None, {"p": 1, "x": 5}, {}, 1, "scn"),
+    ("nested-variable-2", DOC_N, None, {"p": 2, "x": 6}, {}, 1, "scn"),
     ("merged-directives-false", DOC_M, None, {"s": False}, {}, 1, "scn"),
     ("merged-directives-true", DOC_M, None, {"s": True}, {}, 2, "scn"),
     ("failing", DOC_C, None, None, {("b", "strict"): "none"}, 1, "scn"),
@@ -122,8 +125,18 @@ def alone(schema, req, coercer=False):
     harness.CURRENT[0] = scn
     harness.fresh_shared_errors()
     label, text, op, variables, faults, variant, ctxkind = req
-    return norm(harness.run(engine.execute(text, operation_name=op, context=ctx_of(scn, ctxkind), variables=variables,
+    resp = norm(harness.run(engine.execute(text, operation_name=op, context=ctx_of(scn, ctxkind), variables=variables,
                                            initial_value=scn.root)))
+    _ALONE_CALLS[(coercer, label)] = calls_of(scn)
+    return resp
+
+
+_ALONE_CALLS = {}
+
+
+def calls_of(scn):
+    """what the resolvers of one request were called with: (path, arguments), order-free"""
+    return sorted((p, a) for p, _, a in scn.log)
 
 
 def shards(tier, seed):
@@ -192,6 +205,13 @@ def run_shard(item):
                 if norm(resp) != _ALONE[(coercer, r[0])]:
                     bad = ("response-differs-from-solo-run", r[0], "got %s alone %s" % (norm(resp), _ALONE[(coercer, r[0])]))
                     break
+            if bad is None:
+                # ... and its resolvers were called with what they are called with in the solo run (arguments of another request
+                # must not reach them even when the response does not show them)
+                for r, scn_ in zip(reqs, scns):
+                    if calls_of(scn_) != _ALONE_CALLS[(coercer, r[0])]:
+                        bad = ("resolver-calls-differ-from-solo-run", r[0], "got %r alone %r" % (calls_of(scn_)[:6], _ALONE_CALLS[(coercer, r[0])][:6]))
+                        break
         if bad is None:
             # probe afterwards behaves as on a fresh engine
             probe_scn.reset()
